@@ -46,6 +46,15 @@ ASSUME = [
 
 
 def mc_u1(pid, tier):
+    if pid == "C03":
+        r = run_tlc("mc-framing", MC, "MC_Framing", "MC_Framing_%s.cfg" % tier, timeout=3000, xmx="12g")
+        if not r["ok"]:
+            if "is violated" in r["out"]:
+                return None, r
+            tlc_failed(r, "MC_Framing")
+        return (r["distinct"], r["generated"], [{"instance": "MC_Framing", "bounds": "byte strings up to length %d over 10 boundary bytes; 4 streams, every composition" % (5 if tier == "quick" else 7),
+                                                 "formulas": ["Inv_Delivered", "Inv_ImplIsRef", "Complete"], "distinct_states": r["distinct"], "transitions": r["generated"],
+                                                 "depth": r["depth"], "wall_s": round(r["wall"], 1)}]), None
     scns, formulas = U1[pid]
     tot_g = tot_d = 0; runs = []
     for scn in scns:
@@ -231,12 +240,17 @@ def main(pid, tier, seed, replay=None):
     states, trans, runs = mc
 
     w = workdir("walk-" + pid)
-    dirs = gen_families(pid, w, WALKS[tier], seed)
-    trace, index, idx, src = combine(w, dirs)
+    if pid == "C03":
+        run_py([os.path.join(VERIF, "harness", "chunk_driver.py"), w, tier, str(seed)])
+        trace, index = os.path.join(w, "all.ndjson"), os.path.join(w, "all.idx.json")
+        idx = json.load(open(index)); src = [["chunk", "both", k + 1] for k in range(len(idx))]
+    else:
+        dirs = gen_families(pid, w, WALKS[tier], seed)
+        trace, index, idx, src = combine(w, dirs)
     acc, rej, rmon = run_mon(pid, trace, index, "mon-" + pid)
     if len(acc) + len(rej) != len(idx):
         raise Machinery("TraceMon judged %d+%d of %d traces" % (len(acc), len(rej), len(idx)))
-    conf_ok, div = run_conf(w, ("both",) if tier == "quick" else ("pub", "sub", "both"), "conf-" + pid)
+    conf_ok, div = (0, []) if pid == "C03" else run_conf(w, ("both",) if tier == "quick" else ("pub", "sub", "both"), "conf-" + pid)
     for d in div[:5]:
         print("NOTE divergence from MqttClient: profile=%s trace=%s line=%s stimulus=%s (%s)" % d)
 
@@ -257,7 +271,7 @@ def main(pid, tier, seed, replay=None):
         if v[3] > 0:
             lines = load_trace(trace, idx, tidk) if len(nontriv) < 400 else None
             nontriv.add(stim_key(lines) if lines is not None else ("t", tidk))
-            if lines is not None and len(samples) < 2 and 8 <= len(lines) <= 30:
+            if lines is not None and len(samples) < 2 and 8 <= len(lines) <= 30 and sum(len(json.dumps(l)) for l in lines) < 20000:
                 samples.append({"trace": tidk, "profile": lines[0]["profile"], "clause_hits": v[3], "steps": render(lines)})
     if not samples:
         samples.append({"note": "no short accepted trace with clause hits in this run"})
